@@ -645,6 +645,10 @@ def defineBank (d : Decls) (defs : Defs) (b : BankdefAst) : Except String Bank :
     let sizeBits ← match addrSize with
       | none => .ok none
       | some s => if s * unit < USIZE_MAX1 then .ok (some (s * unit)) else .error outOfRange
+    -- the bank's window in the output has to be addressable (finding F81, repaired: `outp + position` wrapped)
+    let _ ← (match sizeBits, outp with
+      | some sz, some o => if o + sz < USIZE_MAX1 then .ok () else .error outOfRange
+      | _, _ => .ok () : Except String Unit)
     pure ⟨start, unit, la, sizeBits, outp, b.fill⟩
 
 def defineRule (d : Decls) (r : RuleAst) : Except String Rule :=
